@@ -309,6 +309,69 @@ def run_engine(jobs, timeout=600, nproc=NCPU):
     return out
 
 
+def run_compile(jobs, timeout=20, nproc=NCPU):
+    """One compiler process per project (aborts and hangs are outcomes, not crashes of the check)."""
+    exe = os.path.join(TARGET, "release", "compile")
+
+    def one(job):
+        t0 = time.time()
+        try:
+            p = subprocess.run([exe], input=json.dumps(job), stdout=subprocess.PIPE, stderr=subprocess.PIPE,
+                               timeout=timeout, text=True, env=ENV)
+        except subprocess.TimeoutExpired:
+            return {"outcome": "timeout", "wall_s": timeout}
+        panic = [l[9:] for l in p.stderr.splitlines() if l.startswith("@@PANIC ")]
+        if p.returncode != 0 and not p.stdout.strip():
+            return {"outcome": "abort", "returncode": p.returncode, "stderr": p.stderr[-400:], "panic": panic}
+        try:
+            d = json.loads(p.stdout.strip().splitlines()[-1])
+        except Exception:
+            return {"outcome": "abort", "returncode": p.returncode, "stderr": p.stderr[-400:], "panic": panic}
+        d["panic"] = panic
+        d["wall_s"] = round(time.time() - t0, 2)
+        return d
+
+    with cf.ThreadPoolExecutor(nproc) as ex:
+        return list(ex.map(one, jobs))
+
+
+_GLUE = [None]
+
+
+def glue_text():
+    if _GLUE[0] is None:
+        _GLUE[0] = open(os.path.join(REPO, "packages/beff-wasm/bundled-code/codegen-v2.js")).read()
+    return _GLUE[0]
+
+
+def run_modules(jobs, timeout=600, nproc=NCPU):
+    """Load emitted modules in Node against the stripped client and run operations on the built parsers."""
+    if not jobs:
+        return []
+    client = ensure_client()
+    glue = glue_text()
+    chunks = [jobs[i::nproc] for i in range(nproc) if jobs[i::nproc]]
+
+    def one(chunk):
+        inp = "\n".join(json.dumps(dict(j, glue=glue)) for j in chunk) + "\n"
+        rc, out, _ = sh(["node", "--stack-size=4000", os.path.join(VERIF, "harness/js/modrun.mjs"), client],
+                        input=inp, timeout=timeout)
+        res = {}
+        for line in out.splitlines():
+            if line.startswith("{"):
+                r = json.loads(line)
+                res[r["id"]] = r
+        if rc != 0 and not res:
+            raise RuntimeError("modrun failed (%s):\n%s" % (rc, out[-3000:]))
+        return res
+
+    merged = {}
+    with cf.ThreadPoolExecutor(nproc) as ex:
+        for r in ex.map(one, chunks):
+            merged.update(r)
+    return [merged.get(j["id"], {"id": j["id"], "error": "no result"}) for j in jobs]
+
+
 # ---------------------------------------------------------------- known findings
 def load_known(prop):
     path = os.path.join(VERIF, "known-findings.jsonl")
